@@ -304,7 +304,7 @@ func (g *gen) input(edge bool) Input {
 	g.nextTag = 100
 	in := Input{TxMode: "default", PayVia: "map_db", SetKey: "db", Pay: int64(r.Range(50, 99))}
 	in.Op = lib.Pick(r, []string{"create", "create", "create", "create_in_batches", "create_in_batches", "save", "save", "update", "updates", "updates", "update_column", "update_columns", "delete", "delete", "find", "find", "first"})
-	in.Type = lib.Pick(r, []string{"T1", "T1", "T1", "T2", "T2", "T0", "T3", "T4", "T5", "T6", "T7", "T8", "T9", "T10", "T11", "T12"})
+	in.Type = lib.Pick(r, []string{"T1", "T1", "T1", "T2", "T2", "T0", "T3", "T4", "T5", "T6", "T7", "T8", "T9", "T10", "T11", "T12", "T13", "T13", "T14", "T14"})
 	nseed := r.Range(0, 5)
 	if in.Op != "create" && r.Chance(4, 5) {
 		nseed = r.Range(2, 5)
@@ -603,7 +603,7 @@ func main() {
 
 	g := &gen{r: lib.NewRng(a.Seed)}
 	r := g.r
-	budget := 1000
+	budget := 1200
 	if a.Tier == "thorough" {
 		budget = 5000
 	}
@@ -716,6 +716,31 @@ func main() {
 			}
 		}
 	}
+	// every model type x every operation through ONE struct value (the only shape in which callMethod first
+	// offers the struct VALUE to the hook closure): which hooks of a phase's pair exist, and on which
+	// receiver, decides what fires
+	for _, ti := range typeList[:15] {
+		for _, sc := range []Input{
+			{Op: "create", Recs: []RecIn{{Tag: 101, Val: 1}}},
+			{Op: "save", Recs: []RecIn{{Tag: 101, Val: 1}}},
+			{Op: "save", Recs: []RecIn{{ID: 1, Tag: 1, Val: 11}}, Seed: g.seed(2)},
+			{Op: "save", Recs: []RecIn{{ID: 9, Tag: 9, Val: 90}}, Seed: g.seed(2)},
+			{Op: "update", Recs: []RecIn{{ID: 1, Tag: 1, Val: 10}}, Seed: g.seed(2), Pay: 65},
+			{Op: "updates", Recs: []RecIn{{ID: 2, Tag: 2, Val: 20}}, Seed: g.seed(2), Pay: 66, PayVia: "struct"},
+			{Op: "delete", Recs: []RecIn{{ID: 1, Tag: 1, Val: 10}}, Seed: g.seed(2)},
+			{Op: "first", Seed: g.seed(2), Limit: 2},
+		} {
+			in := sc
+			in.Type, in.Shape, in.TxMode, in.SetKey = ti.Name, "ptr_struct", "default", "db"
+			if in.PayVia == "" {
+				in.PayVia = "map_db"
+			}
+			if sig(in) != "" {
+				continue
+			}
+			withFaults("per_type", in, a.Tier == "thorough")
+		}
+	}
 	// CreateInBatches: every relation between length and batch size, a failure at every invocation
 	for _, tb := range []struct {
 		ty   string
@@ -747,7 +772,7 @@ func main() {
 	if a.Tier == "thorough" {
 		// bounded-exhaustive sweep: every type x in-domain shape x n in 0..6 x operation, no faults,
 		// then a failure at every invocation for n <= 3
-		for _, ti := range typeList[:13] {
+		for _, ti := range typeList[:15] {
 			for _, sh := range []string{"ptr_struct", "ptr_slice_val", "slice_val", "ptr_slice_ptr", "slice_ptr", "ptr_array_val", "ptr_array_ptr", "array_ptr"} {
 				for n := 0; n <= 6; n++ {
 					if isStruct(sh) && n != 1 {
@@ -771,6 +796,6 @@ func main() {
 			}
 		}
 	}
-	out.Extra["rule"] = "cases = operation {Create, CreateInBatches (every relation of length to batch size), Save, Update, Updates(map by column / by field name / struct), UpdateColumn(s), Delete, Find, First} x 12 model types (hook presence x pointer/value receivers, incl. none and mixed) x argument shape {*T, T, []T, *[]T, []*T, *[]*T, *[n]T, [n]T, *[n]*T, [n]*T} x 0..6 records x has-many/belongs-to values with hooks of their own (incl. one keyed belongs-to record shared by several owners of a slice) x SkipHooks x {default transaction, explicit outer transaction, SkipDefaultTransaction} x failure injected at one or two hook invocations (plain errors and errors wrapping gorm's sentinel errors ErrRecordNotFound / ErrInvalidTransaction / ErrMissingWhereClause / ErrInvalidValue / ErrEmptySlice / ErrInvalidData) x SetColumn from before-hooks (per record and, with the fromCallbacks flag, for every record of a slice) x RETURNING / no-RETURNING dialect capability x Clauses(Returning) on update/delete x Delete with Select(has-many) x Find/First with Preload of has-many values carrying AfterFind hooks x a type whose hook methods have the wrong signature; distinct = distinct (op,type,shape,n,associations,skip,txmode,fails,sets,payload form) tuples; non-trivial = at least 2 hook invocations observed and (a failing invocation was reached, or more than one record, or a SetColumn call)"
+	out.Extra["rule"] = "cases = operation {Create, CreateInBatches (every relation of length to batch size), Save, Update, Updates(map by column / by field name / struct), UpdateColumn(s), Delete, Find, First} x 15 model types (hook presence x pointer/value receivers, incl. none, mixed, wrong signature, and single value-receiver hooks whose phase partner is absent) x argument shape {*T, T, []T, *[]T, []*T, *[]*T, *[n]T, [n]T, *[n]*T, [n]*T} x 0..6 records x has-many/belongs-to values with hooks of their own (incl. one keyed belongs-to record shared by several owners of a slice) x SkipHooks x {default transaction, explicit outer transaction, SkipDefaultTransaction} x failure injected at one or two hook invocations (plain errors and errors wrapping gorm's sentinel errors ErrRecordNotFound / ErrInvalidTransaction / ErrMissingWhereClause / ErrInvalidValue / ErrEmptySlice / ErrInvalidData) x SetColumn from before-hooks (per record and, with the fromCallbacks flag, for every record of a slice) x RETURNING / no-RETURNING dialect capability x Clauses(Returning) on update/delete x Delete with Select(has-many) x Find/First with Preload of has-many values carrying AfterFind hooks x a type whose hook methods have the wrong signature; distinct = distinct (op,type,shape,n,associations,skip,txmode,fails,sets,payload form) tuples; non-trivial = at least 2 hook invocations observed and (a failing invocation was reached, or more than one record, or a SetColumn call)"
 	lib.Must(out.Flush())
 }
